@@ -107,7 +107,7 @@ class Evaluator:
         hl = []
         for k, (lang, e) in enumerate(cases):
             rnd, spec, chk = mo[3 * k], mo[3 * k + 1], mo[3 * k + 2]
-            if rnd[:1] != [b"ok"] or spec[:1] != [b"ok"] or len(chk) != 4:
+            if rnd[:1] != [b"ok"] or spec[:1] != [b"ok"] or len(chk) != 7:
                 raise vlib.BuildError("model rejected an expression encoding: %r %r" % (e, rnd))
             labs, toks = token_strs(rnd[1:])
             strs = [G.tokfield_text(t) for t in toks]
@@ -127,7 +127,8 @@ class Evaluator:
                     tstrs[i] = "->"
             text = " ".join(tstrs)
             rec = {"lang": lang, "e": e, "text": text, "strs": strs, "spec_links": sl, "labels_ok_pos": ok_labels,
-                   "wf": chk[0] == b"1", "decl_like": chk[1] == b"1", "labels_ok": chk[2] == b"1", "thm": chk[3] == b"1"}
+                   "wf": chk[0] == b"1", "decl_like": chk[1] == b"1", "labels_ok": chk[2] == b"1", "thm": chk[3] == b"1",
+                   "stage6_premises": chk[0] == b"1" and chk[2] == b"1" and chk[4] == b"1" and chk[5] == b"1" and chk[6] == b"0"}
             rec["spec_tree"] = G.canon_tree(strs, sl)
             recs.append(rec)
             hl.append([lang.encode(), G.PRELUDE.encode(), text.encode()])
@@ -200,7 +201,8 @@ def judge(run, recs, stream_prefix=""):
             run.count(stream_prefix + "theorem-instance", None, nontrivial=None, bucket="outside-model:cast")
         elif rec["wf"] and rec["labels_ok"]:
             run.count(stream_prefix + "theorem-instance", None, nontrivial=nt,
-                      bucket=("holds" if rec["thm"] else "FAILS") + (",fnptr-decl-pattern" if rec["decl_like"] else ""))
+                      bucket=("holds" if rec["thm"] else "FAILS") +
+                             (",premises-of-C07_parse_render_stage6_partial" if rec["stage6_premises"] else ",outside-its-premises"))
             if not rec["thm"] and not G.has_cast(e):
                 thm.append(rec)
         else:
